@@ -44,6 +44,38 @@ pub fn control_placement_programs() -> Vec<String> {
             out.push(format!("{prelude}{l}; x := {{ {s}; 5 }}; *k"));
         }
     }
+    // compound assignments whose result is wider than the cell's declared type
+    let compound = [
+        ("[int]", "[1]", "[2.5]", "(*c)[1] + 1"),
+        ("[int]", "[1]", "[\"s\"]", "(*c)[1] + 1"),
+        ("[int]", "[1]", "[()]", "(*c)[1] + 1"),
+        ("[int]", "[1]", "[[2]]", "(*c)[1] + 1"),
+        ("[string]", "[\"a\"]", "[1]", "(*c)[1] + \"b\""),
+        ("[[int]]", "[[1]]", "[[\"s\"]]", "(*c)[1][0] + 1"),
+        ("[float]", "[1.5]", "[1]", "(*c)[1] * 2.0"),
+        ("int", "5", "2.5", "*c + 1"),
+        ("int", "5", "\"s\"", "*c + 1"),
+        ("int", "5", "[1]", "*c + 1"),
+        ("float", "1.5", "2", "*c * 2.0"),
+        ("float", "1.5", "[2.5]", "*c * 2.0"),
+        ("string", "\"a\"", "[\"b\"]", "*c + \"b\""),
+        ("bool", "true", "1", "!*c"),
+    ];
+    for (t, v, w, usage) in compound {
+        for op in ["+=", "-=", "*=", "/=", "%=", "**=", "&=", "|=", "^=", "<<=", ">>=", "="] {
+            out.push(format!("c := mut {t} {v}; c {op} {w}; {usage}"));
+            out.push(format!("c := mut {t} {v}; upd := (m: mut {t}, w: any) {{ if x: any = w {{ m {op} {w}; }}; }}; upd(c, 0); {usage}"));
+        }
+        out.push(format!("c := mut {t} {v}; d := c; d += {w}; {usage}"));
+        out.push(format!("c := mut {t} {v}; for w in [{w}]~ {{ c += w; }}; {usage}"));
+    }
+    // each program once more with the cell itself as the result, so that its content is judged
+    // against its declared type even when the use above fails or is folded away
+    let with_cell: Vec<String> =
+        out.iter().filter(|p| p.starts_with("c := mut")).filter_map(|p| p.rsplit_once("; ").map(|(head, _)| format!("{head}; c"))).collect();
+    out.extend(with_cell);
+    out.sort();
+    out.dedup();
     out
 }
 
